@@ -244,4 +244,62 @@ def holdsPub (self sess : Nat) (g : Group) (seats : List Nat) (ms : List PMsg) (
   && nodupB (l.map (·.1))
   && (can == (l.length + 1 == g.operating.length))
 
+/-! ## monitors of the real-run ops (`run`, `exec`) -/
+
+/-- members that are not excluded (what every one of them must compute as the operating set) -/
+def opOf (n : Nat) (excl : List Nat) : List Nat := (List.range' 1 n).filter (fun m => !excl.contains m)
+
+/-- the excluded members of the group, ascending (the expected misbehaved list) -/
+def misOf (n : Nat) (excl : List Nat) : List Nat := (List.range' 1 n).filter (fun m => excl.contains m)
+
+/-- observation of a real DKG run: members that finished with a result, whether their wallet keys
+    are all equal, their common misbehaved list (`none`: they differ), whether every share stores
+    exactly the party keys `seed + m` of the operating members and its own share id, and the
+    excluded members that nevertheless finished with a result. -/
+structure RunObs where
+  okm : List Nat
+  agree : Bool
+  mis : Option (List Nat)
+  ks : Bool
+  exjoin : List Nat
+deriving Repr
+
+/-- `run` monitor: no excluded member joined; the members that finished agree on the key and
+    report exactly the excluded members as misbehaved; the stored party keys are the identities;
+    when the exclusion leaves the honest threshold (and at least two members), exactly the
+    non-excluded members finish. -/
+def holdsRun (n t : Nat) (excl : List Nat) (o : RunObs) : Bool :=
+  o.exjoin.isEmpty
+  && (o.okm.isEmpty || o.agree)
+  && (o.okm.isEmpty || o.mis == some (misOf n excl))
+  && o.ks
+  && (!(decide (t ≤ (opOf n excl).length) && decide (2 ≤ (opOf n excl).length)) || o.okm == opOf n excl)
+
+def allEq {α} [BEq α] : List α → Bool
+  | [] => true
+  | a :: as => as.all (· == a)
+
+/-- a running member's view: its index and the operating set it hands to tss-lib -/
+def viewOf (n : Nat) (excl : List Nat) (i : Nat) : Nat × List Nat := (i, (memberGroup n i excl).operating)
+
+/-- A-tss (completion): a party finishes key generation exactly when its party set has at least the
+    honest threshold of members and every member of that set runs with the SAME set (the round
+    messages of a party are only consumed by parties that admit it — `history_only_admitted` — and a
+    party waits for one message of each other party of its set — `canTransition_complete`). -/
+def completes (t : Nat) (views : List (Nat × List Nat)) (v : Nat × List Nat) : Bool :=
+  decide (t ≤ v.2.length) && v.2.all fun p => views.any fun w => w.1 == p && w.2 == v.2
+
+/-- `exec` op: what is delivered to the real `Execute` — the genuine first message of every member
+    other than `self` that is not excluded (seat `m` is operator `m`, session 1) -/
+def execEvents (n self : Nat) (excl : List Nat) : List Ev :=
+  ((List.range' 1 n).filter (fun m => !(m == self) && !excl.contains m)).map
+    fun m => Ev.recv ⟨0, m, m, 1, m⟩
+
+/-- … and whether a member whose group is `g` then leaves the first state -/
+def execReached (n self : Nat) (excl : List Nat) (g : Group) : Bool :=
+  canTransition 0 g (run self 1 g (List.range' 1 n) (execEvents n self excl)).hist
+
+/-- `exec` monitor: the member reached the initialization of TSS round one -/
+def holdsExec (reached : Bool) : Bool := reached
+
 end KeepVerif.C07
